@@ -2,8 +2,11 @@ package hrt
 
 import (
 	"fmt"
+	"os"
+	"runtime"
 	"runtime/debug"
 	"strings"
+	"time"
 )
 
 // Controlled is set before any task goroutine is started and never changed
@@ -61,6 +64,42 @@ func siteFn(site string) string {
 
 func SiteFn(site string) string { return siteFn(site) }
 
+// HeapLimit is the second half of the liveness budget: a task that loops and
+// allocates on every iteration (a parser stack that only grows) exhausts the
+// machine long before a tick budget of billions runs out. Checked once per 2^20
+// ticks of a task; exceeding it ends the task like an exhausted tick budget.
+// Ordinary runs of the harness stay below a tenth of it.
+var HeapLimit uint64 = 3 << 30
+
+func heapOver() bool {
+	var m runtime.MemStats
+	runtime.ReadMemStats(&m)
+	if m.HeapAlloc <= HeapLimit {
+		return false
+	}
+	// garbage of a task that was stopped earlier does not count
+	runtime.GC()
+	runtime.ReadMemStats(&m)
+	return m.HeapAlloc > HeapLimit
+}
+
+// StartMemWatchdog is the backstop for code that runs without ticks (the
+// free-running configuration): the process ends with status 3 (trouble of the
+// harness, never a verdict) before the machine runs out of memory.
+func StartMemWatchdog(limit uint64) {
+	go func() {
+		for {
+			time.Sleep(500 * time.Millisecond)
+			var m runtime.MemStats
+			runtime.ReadMemStats(&m)
+			if m.HeapAlloc > limit {
+				fmt.Fprintf(os.Stderr, "harness memory watchdog: heap %d MB exceeds %d MB\n", m.HeapAlloc>>20, limit>>20)
+				os.Exit(3)
+			}
+		}
+	}()
+}
+
 var (
 	cur     *Task
 	multi   bool
@@ -81,7 +120,7 @@ func Tick(site string) {
 	}
 	t.Ticks++
 	t.LastSite = site
-	if t.Ticks > t.Budget {
+	if t.Ticks > t.Budget || (t.Ticks&(1<<20-1) == 0 && heapOver()) {
 		panic(&BudgetExceeded{Site: site, Ticks: t.Ticks})
 	}
 	if multi {
@@ -104,7 +143,7 @@ func TickLeaf(site string) {
 		return
 	}
 	t.Ticks++
-	if t.Ticks > t.Budget {
+	if t.Ticks > t.Budget || (t.Ticks&(1<<20-1) == 0 && heapOver()) {
 		at := t.LastSite
 		if at == "" {
 			at = site
@@ -196,6 +235,9 @@ type Step struct {
 	Quantum int `json:"q"`
 }
 
+// maxSwitches bounds the fine-grained part of one concurrent phase.
+const maxSwitches = 1 << 21
+
 // RunConcurrent runs the tasks as real goroutines of which exactly one is
 // released at a time. choose is called with the runnable task indices and
 // returns the next step; atSwitch (optional) runs between steps, with no task
@@ -232,6 +274,12 @@ func RunConcurrent(fs []func(), budgets []int64, choose func(runnable []int) Ste
 		st := choose(runnable)
 		if st.Quantum < 1 {
 			st.Quantum = 1
+		}
+		if len(trace) >= maxSwitches {
+			// a task that loops until its tick budget (up to billions of
+			// ticks) must not grow the trace without bound: from here on every
+			// chosen task runs to completion or to its budget
+			st.Quantum = 1 << 30
 		}
 		trace = append(trace, st)
 		t := tasks[st.Task]
